@@ -9,7 +9,7 @@ LEVEL = "exploration"
 TECHNIQUE = ("differential runtime monitor vs hashlib + from-spec RIPEMD-160 and MurmurHash3/BIP37 references, one worker "
              "process per RIPEMD-160 configuration (native, PYCOIN_USE_PYTHON_RIPEMD160, simulated OpenSSL without ripemd160)")
 RULE = ("cases: byte strings of every length 0..300 (zeros / 0xff / random; thorough: several random fills) plus 511..513, "
-        "1023..1025, 10^4 (thorough 10^5, 10^6) through hash160, double_sha256, hash.ripemd160 and contrib.ripemd160 in each "
+        "1023..1025, 10^4 (thorough 10^5, 10^6), random lengths to 2,048 biased to 64k+{0,1,54..57,62,63}, through hash160, double_sha256, hash.ripemd160 and contrib.ripemd160 in each "
         "configuration; murmur3 on every length 0..70 and 255..257, 4095..4097, 65535..65537, 70000 x seeds {0, 1, 2^31, "
         "2^32-1, 2^32, 2^64+5, 0xFBA4C795, random 32- and 70-bit}; Bloom filters of 1..36,000 bytes x 1..50 hash functions x "
         "tweaks (same list) x 0..12 items of 0..40, 65 bytes through add_item / add_hash160 / add_address / add_spendable. "
@@ -52,15 +52,16 @@ def plan(tier, seed):
         for p in range(parts):
             shards.append({"kind": "digests", "config": cfg, "env": dict(env), "part": p, "parts": parts,
                            "fills": 8 if q else 16, "big": [10000] if q else [10000, 100000, 1000000],
+                           "n_random": 300 if q else 35000,
                            "label": "digests-%s-%d" % (cfg, p)})
     shards.append({"kind": "digests", "config": "sim_no_native", "env": {}, "part": 0, "parts": 1, "fills": 2 if q else 6,
-                   "big": [10000], "label": "digests-sim_no_native"})
+                   "big": [10000], "n_random": 300 if q else 35000, "label": "digests-sim_no_native"})
     nm = 4 if q else 6
     for p in range(nm):
-        shards.append({"kind": "murmur", "config": "native", "n": 9000 if q else 400000, "part": p, "parts": nm, "label": "murmur%d" % p})
+        shards.append({"kind": "murmur", "config": "native", "n": 9000 if q else 1500000, "part": p, "parts": nm, "label": "murmur%d" % p})
     nb = 5 if q else 6
     for p in range(nb):
-        shards.append({"kind": "bloom", "config": "native", "n": 450 if q else 25000, "part": p, "label": "bloom%d" % p})
+        shards.append({"kind": "bloom", "config": "native", "n": 450 if q else 60000, "part": p, "label": "bloom%d" % p})
     return shards
 
 
@@ -142,7 +143,7 @@ def check_digests(case, rec, M, want_pure_check=False):
     if st != "ok" or bytes(got) != exp_h or len(got) != 20:
         rec.violation("hash160.%s.mismatch" % cfg, case, got, exp_h)
     if M.tap[0] > before:
-        rec.ev("tap:contrib.ripemd160.via_hash160")
+        rec.ev("tap:contrib.ripemd160.via_hash160:" + cfg)
     rec.ev("double_sha256")
     st, got = observe(M.hash.double_sha256, d)
     if st != "ok" or bytes(got) != exp_d or len(got) != 32:
@@ -187,6 +188,18 @@ def run_digests(spec, rec, M):
         L = rng.choice([20, 32, 33, 65, 25, 34, 71, 72, 73, 105, 107, rng.randrange(0, 200)])
         check_digests({"kind": "digest", "config": M.config, "len": L, "pattern": bytes(rng.getrandbits(8) for _ in range(max(L, 1)))},
                       rec, M)
+    # random lengths, biased to the padding boundaries of every block count up to 2000 bytes
+    for _ in range(spec.get("n_random", 0)):
+        r = rng.random()
+        if r < 0.5:
+            L = 64 * rng.randrange(0, 32) + rng.choice([0, 1, 54, 55, 56, 57, 62, 63])
+        elif r < 0.9:
+            L = rng.randrange(0, 600)
+        else:
+            L = rng.randrange(0, 2048)
+        fill = rng.random()
+        pat = bytes([rng.choice([0, 0x80, 0xff])]) if fill < 0.1 else bytes(rng.getrandbits(8) for _ in range(max(L, 1)))
+        check_digests({"kind": "digest", "config": M.config, "len": L, "pattern": pat}, rec, M)
     rec.sample({"op": "hash160", "config": M.config, "impl_in_use": M.impl, "data": b"", "digest": RR.hash160(b"")})
 
 
@@ -367,7 +380,7 @@ def run_shard(spec, rec):
             return
         if spec["config"] in ("python", "sim_no_native"):
             # the configuration counts as exercised only if hash160 really went through the bundled implementation
-            rec.require("tap:contrib.ripemd160.via_hash160")
+            rec.require("tap:contrib.ripemd160.via_hash160:" + spec["config"])
         run_digests(spec, rec, M)
     elif kind == "murmur":
         rec.require("murmur3")
